@@ -76,6 +76,25 @@ def arg_fp(sig, dicts, table):
     return [tt.col_fp(np.asarray(sig).ravel()), [sorted((k, str(v)) for k, v in d.items()) for d in dicts], pt.table_fp(table) if table is not None else 0]
 
 
+def _peek(b):
+    """The user looks at the object's columns through attribute access (before an operation): whatever is handed out must not go stale."""
+    try:
+        if b.df_features is not None:
+            b.is_burst, b.period
+    except Exception:
+        pass
+
+
+def _attr_ok(b):
+    """...and after it: attribute access returns the columns of the table the object holds NOW."""
+    if b.df_features is None:
+        return True
+    try:
+        return bool(np.array_equal(b.is_burst, b.df_features['is_burst'].values) and np.array_equal(b.period, b.df_features['period'].values))
+    except Exception:
+        return False
+
+
 def replay(behaviour, shorthand=None):
     """behaviour: list of action records from TLC. Returns the list of events for Trace_Session.
     shorthand: the user writes threshold names without the '_threshold' suffix (the constructor expands them in place, as documented);
@@ -135,7 +154,7 @@ def replay(behaviour, shorthand=None):
     events = []
     for a in behaviour:
         ev = {'a': a['a'], 'o': a['o'], 'method': a['method'], 'tk': a['tk'], 's': a['s'], 'v': a['v'], 'f': a.get('f', ''), 'raised': '',
-              'df_fp': 0, 'fresh_fp': 0, 'before_fp': 0, 'fresh_raised': '', 'attr_col': '', 'attr_missing': '', 'pre': [], 'post': [], 'result_fp': 0}
+              'df_fp': 0, 'fresh_fp': 0, 'reduced_ok': True, 'attr_ok': True, 'before_fp': 0, 'fresh_raised': '', 'attr_col': '', 'attr_missing': '', 'pre': [], 'post': [], 'result_fp': 0, 'again_fp': -1}
         with warnings.catch_warnings():
             warnings.simplefilter('ignore')
             try:
@@ -147,7 +166,9 @@ def replay(behaviour, shorthand=None):
                     centre[a['o']] = 'peak'
                 elif a['a'] == 'Fit':
                     b = objs[a['o']]
+                    _peek(b)
                     b.fit(SIG[a['s']], FS, FR)
+                    ev['attr_ok'] = _attr_ok(b)
                     ev['df_fp'] = pt.table_fp(b.df_features)
                     ev['fresh_fp'] = pt.table_fp(compute_features(SIG[a['s']].copy(), FS, FR, center_extrema=centre[a['o']], burst_method=a['method'],
                                                                   burst_kwargs=copy.deepcopy(intent[2]), threshold_kwargs=copy.deepcopy(intent[a['tk']]),
@@ -156,8 +177,12 @@ def replay(behaviour, shorthand=None):
                     b = objs[a['o']]
                     before = b.df_features.copy()
                     red = 0.1 if a['v'] else None
+                    _peek(b)
                     b.recompute_edges(red)
+                    ev['attr_ok'] = _attr_ok(b)
                     ev['df_fp'] = pt.table_fp(b.df_features)
+                    want = {k: (v - (red or 0) if k.endswith('threshold') else v) for k, v in b.thresholds.items()}
+                    ev['reduced_ok'] = bool(b.reduce_thresholds(red) == want and b.reduce_thresholds(0.205) == {k: (v - 0.205 if k.endswith('threshold') else v) for k, v in b.thresholds.items()})
                     thr = {k: (v - (red or 0) if k.endswith('_threshold') else v) for k, v in intent[a['tk']].items()}
                     ev['fresh_fp'] = pt.table_fp(recompute_edges(before, thr))
                 elif a['a'] == 'RecomputeRaises':
@@ -177,7 +202,9 @@ def replay(behaviour, shorthand=None):
                 elif a['a'] == 'Load':
                     b = objs[a['o']]
                     df = LOAD[a['s']].copy()
+                    _peek(b)
                     b.load(df, SIG[a['s']], FS, FR)
+                    ev['attr_ok'] = _attr_ok(b)
                     ev['df_fp'] = pt.table_fp(b.df_features)
                     ev['fresh_fp'] = pt.table_fp(LOAD[a['s']])
                 elif a['a'] == 'SetCentre':
@@ -200,8 +227,9 @@ def replay(behaviour, shorthand=None):
                 elif a['a'] == 'GetAttr':
                     b = objs[a['o']]
                     try:
-                        v = b.period
-                        ev['attr_col'] = 'column' if b.df_features is not None and np.array_equal(v, b.df_features['period'].values) else 'mismatch'
+                        v, lab = b.period, b.is_burst
+                        ev['attr_col'] = 'column' if (b.df_features is not None and np.array_equal(v, b.df_features['period'].values)
+                                                      and np.array_equal(lab, b.df_features['is_burst'].values)) else 'mismatch'
                     except AttributeError:
                         ev['attr_col'] = 'AttributeError'
                     try:
@@ -226,55 +254,67 @@ def replay(behaviour, shorthand=None):
                         sig = SIGS3
                     extra = (lambda: [tt.col_fp(np.concatenate(ARRS[(s, m)]).astype(float))]) if f == 'plot_cyclepoints_array' else (lambda: [])
                     ev['pre'] = arg_fp(sig, dicts, tab) + extra()
-                    if f == 'compute_features':
-                        res = compute_features(sig, FS, FR, burst_method=m, burst_kwargs=D[2], threshold_kwargs=D[tk], find_extrema_kwargs=D[4])
-                    elif f == 'compute_shape_features':
-                        res = compute_shape_features(sig, FS, FR, find_extrema_kwargs=D[4])
-                    elif f == 'compute_shape_features_n_cycles_5':
-                        res = compute_shape_features(sig, FS, FR, n_cycles=5)                    # library defaults for the extrema options
-                    elif f == 'compute_features_default_options':
-                        res = compute_features(sig, FS, FR, burst_method=m, burst_kwargs=D[2], threshold_kwargs=D[tk])
-                    elif f in ('compute_burst_features', 'compute_burst_features_inverted_flanks'):
-                        res = compute_burst_features(tab, sig, burst_method=m, burst_kwargs=D[2])
-                    elif f == 'limit_df_keeping_all_cycles':
-                        res = limit_df(tab, FS, start=1.0 / FS, stop=None)
-                    elif f in ('recompute_edges', 'recompute_edges_no_burst'):
-                        res = recompute_edges(tab, D[tk])
-                    elif f == 'compute_features_2d':
-                        res = pd.concat(compute_features_2d(sig, FS, FR, compute_features_kwargs=OUTER[m], axis=0, n_jobs=1))
-                    elif f == 'compute_features_2d_epochs':
-                        res = pd.concat(compute_features_2d(sig, FS, FR, compute_features_kwargs=OUTER[m], axis=None, n_jobs=1))
-                    elif f == 'compute_features_3d':
-                        res = pd.concat([d for row in compute_features_3d(sig, FS, FR, compute_features_kwargs=OUTER[m][0], axis=(0, 1), n_jobs=1) for d in row])
-                    elif f == 'limit_df':
-                        res = limit_df(tab, FS, start=0.25, stop=2.0)
-                    elif f == 'epoch_df':
-                        res = epoch_df(tab, len(sig), FS)[1]
-                    elif f == 'drop_samples_df':
-                        res = drop_samples_df(tab)
-                    elif f.startswith('plot_'):
-                        # the other plotting functions: purity only (what they draw is C20); the cyclepoint arrays are the user's objects too
-                        try:
-                            if f == 'plot_cyclepoints_df':
-                                plot_cyclepoints_df(tab, sig, FS, xlim=(0.5, 2.0))
-                            elif f == 'plot_cyclepoints_array':
-                                arrs = ARRS[(s, m)]
-                                plot_cyclepoints_array(sig, FS, peaks=arrs[0], troughs=arrs[1], rises=arrs[2], decays=arrs[3], xlim=(0.5, 2.0))
-                            elif f == 'plot_burst_detect_param':
-                                plot_burst_detect_param(tab, sig, FS, 'period_consistency' if m == 'cycles' else 'burst_fraction', 0.5, xlim=(0.5, 2.0))
-                            elif f == 'plot_feature_hist':
-                                plot_feature_hist(tab, 'period', only_bursts=bool(s == 1), xlim=(0, 200))
-                            else:
-                                plot_feature_categorical(tab, 'time_rdsym', group_by='is_burst')
-                        finally:
-                            plt.close('all')
-                        res = None
-                    else:
-                        try:
-                            plot_burst_detect_summary(tab, sig, FS, D[tk])
-                        finally:
-                            plt.close('all')
-                        res = None
+                    def do_call():
+                        if f == 'compute_features':
+                            res = compute_features(sig, FS, FR, burst_method=m, burst_kwargs=D[2], threshold_kwargs=D[tk], find_extrema_kwargs=D[4])
+                        elif f == 'compute_shape_features':
+                            res = compute_shape_features(sig, FS, FR, find_extrema_kwargs=D[4])
+                        elif f == 'compute_shape_features_n_cycles_5':
+                            res = compute_shape_features(sig, FS, FR, n_cycles=5)                    # library defaults for the extrema options
+                        elif f == 'compute_features_default_options':
+                            res = compute_features(sig, FS, FR, burst_method=m, burst_kwargs=D[2], threshold_kwargs=D[tk])
+                        elif f in ('compute_burst_features', 'compute_burst_features_inverted_flanks'):
+                            res = compute_burst_features(tab, sig, burst_method=m, burst_kwargs=D[2])
+                        elif f == 'limit_df_keeping_all_cycles':
+                            res = limit_df(tab, FS, start=1.0 / FS, stop=None)
+                        elif f in ('recompute_edges', 'recompute_edges_no_burst'):
+                            res = recompute_edges(tab, D[tk])
+                        elif f == 'compute_features_2d':
+                            res = pd.concat(compute_features_2d(sig, FS, FR, compute_features_kwargs=OUTER[m], axis=0, n_jobs=1))
+                        elif f == 'compute_features_2d_epochs':
+                            res = pd.concat(compute_features_2d(sig, FS, FR, compute_features_kwargs=OUTER[m], axis=None, n_jobs=1))
+                        elif f == 'compute_features_3d':
+                            res = pd.concat([d for row in compute_features_3d(sig, FS, FR, compute_features_kwargs=OUTER[m][0], axis=(0, 1), n_jobs=1) for d in row])
+                        elif f == 'limit_df':
+                            res = limit_df(tab, FS, start=0.25, stop=2.0)
+                        elif f == 'epoch_df':
+                            res = epoch_df(tab, len(sig), FS)[1]
+                        elif f == 'drop_samples_df':
+                            res = drop_samples_df(tab)
+                        elif f.startswith('plot_'):
+                            # the other plotting functions: purity only (what they draw is C20); the cyclepoint arrays are the user's objects too
+                            try:
+                                if f == 'plot_cyclepoints_df':
+                                    plot_cyclepoints_df(tab, sig, FS, xlim=(0.5, 2.0))
+                                elif f == 'plot_cyclepoints_array':
+                                    arrs = ARRS[(s, m)]
+                                    plot_cyclepoints_array(sig, FS, peaks=arrs[0], troughs=arrs[1], rises=arrs[2], decays=arrs[3], xlim=(0.5, 2.0))
+                                elif f == 'plot_burst_detect_param':
+                                    plot_burst_detect_param(tab, sig, FS, 'period_consistency' if m == 'cycles' else 'burst_fraction', 0.5, xlim=(0.5, 2.0))
+                                elif f == 'plot_feature_hist':
+                                    plot_feature_hist(tab, 'period', only_bursts=bool(s == 1), xlim=(0, 200))
+                                else:
+                                    plot_feature_categorical(tab, 'time_rdsym', group_by='is_burst')
+                            finally:
+                                plt.close('all')
+                            res = None
+                        else:
+                            try:
+                                plot_burst_detect_summary(tab, sig, FS, D[tk])
+                            finally:
+                                plt.close('all')
+                            res = None
+                        return res
+
+                    res = do_call()
+                    if f.startswith('compute_') and not f.startswith('compute_features_2d') and f != 'compute_features_3d':
+                        # the user meanwhile analyses the SAME signal with other settings (another filter length for the band amplitude, other
+                        # units); the call is then repeated with the same argument objects: it must return the identical table
+                        one_d = SIG[s]
+                        compute_shape_features(one_d, FS, FR, n_cycles=7)
+                        compute_features(one_d, 2 * FS, (2 * FR[0], 2 * FR[1]), burst_method='amp', burst_kwargs={'amp_threshes': (0.5, 1.5)}, threshold_kwargs={'burst_fraction_threshold': 0.9})
+                        again = do_call()
+                        ev['again_fp'] = pt.table_fp(again) if again is not None else 1
                     ev['post'] = arg_fp(sig, dicts, tab) + extra()
                     ev['result_fp'] = pt.table_fp(res) if res is not None else 1
             except Exception as ex:
